@@ -204,6 +204,29 @@ def r1_line_comment_discipline(w):
             r.bad(cons, key, why, loc)
     if n_sites < 30:
         raise AnchorMissing('comment-emitting sites for the sequence rule (found %d)' % n_sites)
+    # the flags that force the never-fold layout are latches: once a line comment set them no later child may clear them
+    # (evaluated per child kind in the single-iteration table of the list stylist's loop)
+    tab = e2.site_table(w)
+    latch_fields = ('ListStylist.has_line_comment',) if 'A' in (list_mech or {'A'}) else ()
+    resets = {}
+    n_latch = 0
+    for (fn, parent), outs in tab.items():
+        for o in outs or []:
+            if not o.loops or last(o.loops[-1][0]) != 'process_iterable_impl':
+                continue
+            for (fld, val) in o.stores or []:
+                if fld.endswith(latch_fields) and latch_fields:
+                    n_latch += 1
+                    if not (isinstance(val, Const) and val.v is True):
+                        resets.setdefault((fld.rsplit('::', 1)[-1], o.item.kind), repr(val))
+    cons = {'list_stylist_latches': list(latch_fields), 'stores_seen': n_latch, 'non_true_stores': sorted(map(str, resets))}
+    if resets:
+        (fld, k), val = sorted(resets.items(), key=str)[0]
+        r.bad(cons, 'list-stylist|latch-reset|%s' % fld.rsplit('.', 1)[-1],
+              'the list stylist writes %s := %s while processing a %s child: the flag that forces the broken layout after a line comment is not a latch, a later comment (e.g. a block '
+              'comment) clears it and the list can be folded onto the line of the line comment' % (fld, val, k))
+    elif latch_fields and n_latch:
+        r.ok(cons, 'only ever set to true')
     # printers: Linebreak items become hard lines
     for name, variant in (('chain::{impl#0}::print_doc', 'Linebreak'), ('plain::{impl#0}::print_doc', 'Linebreak')):
         bs = w.core.find(name)
